@@ -950,6 +950,32 @@ static void run_equiv(Json& js, vh::Rng& rng, long budget, bool big) {
           .num("block", block).num("olen", olen).num("firstdiff", fd).end();
         js.begin("Resid").str("clause", "C07.fir-vs-longdouble").num("nh", nh).num("n", n).boolean("cplx", cplx)
           .num("err_milli", (long)std::min(1e9, worst * 1000)).end();
+        // moving average = FIR with n equal taps 1/n on large-dynamic-range content: one huge outlier in unit-level data, one
+        // long array call.  Judged from 2n samples after the outlier on (a running sum may carry the outlier's rounding residue
+        // until it is rebuilt; the documented design rebuilds it every n samples), against the window mean in long double.
+        {
+            static const int NS[] = {2, 3, 4, 16, 100};
+            const int nm = rng.range(0, 2) ? NS[rng.range(0, 4)] : (int)rng.range(2, 64);
+            const int len = 8 * nm + (int)rng.range(0, 300), at = (int)rng.range(0, 2 * nm);
+            arr_real xm(len);
+            for (int i = 0; i < len; ++i) {
+                xm[i] = rng.gauss();
+            }
+            xm[at] = std::pow(10.0, (double)rng.range(9, 15)) * (rng.coin() ? 1 : -1);
+            MAFilterR ma(nm);
+            const arr_real ym = ma.process(xm);
+            double w2 = 0;
+            for (int i = at + 2 * nm; i < len; ++i) {
+                long double acc = 0, mag = 0;
+                for (int k = 0; k < nm; ++k) {
+                    acc += xm[i - k];
+                    mag += std::fabs((long double)xm[i - k]);
+                }
+                w2 = std::max(w2, std::fabs((double)(acc / nm - ym[i])) / (16.0 * nm * 2.22e-16 * (double)(mag / nm) + 1e-300));
+            }
+            js.begin("Resid").str("clause", "C07.ma-dynrange").num("nh", nm).num("n", len).boolean("cplx", false)
+              .num("err_milli", (long)std::min(1e9, w2 * 1000)).end();
+        }
     }
 }
 
